@@ -8,7 +8,7 @@ prop, nums = sys.argv[1], sys.argv[2:]
 root = os.path.dirname(os.path.dirname(os.path.dirname(os.path.abspath(__file__))))
 LIBS = '-lz -lbz2 -llzma -lb2 -llz4 -lzstd -lcrypto -lxml2 -lacl -lpthread'
 def sh(cmd, cwd=None, timeout=3600):
-    r = subprocess.run(cmd, shell=True, cwd=cwd, capture_output=True, text=True, timeout=timeout)
+    r = subprocess.run(cmd, shell=True, cwd=cwd, capture_output=True, text=True, errors='replace', timeout=timeout)
     return r.returncode, (r.stdout + r.stderr)
 wt = f'/tmp/confirm/{prop}'
 sh(f'git -C /repo worktree remove --force {wt}'); shutil.rmtree(wt, ignore_errors=True)
@@ -21,8 +21,12 @@ def build_and_test(tag):
     import re
     norm = sorted(set(re.findall(r'- (\S+) \(Failed\)', out))) + re.findall(r'\d+% tests passed, \d+ tests failed out of \d+', out)
     return ' | '.join(norm), out
-def demo(src, extra=''):
-    rc, out = sh(f'gcc -O1 -g {extra} -I libarchive -I _b -I libarchive/test {src} _b/libarchive/libarchive.a {LIBS} -o _b/demo 2>&1 | tail -5', cwd=wt)
+def build_san():
+    return sh('cmake -G Ninja -B _bs -DCMAKE_BUILD_TYPE=Release -DENABLE_WERROR=OFF -DENABLE_TEST=OFF -DCMAKE_C_FLAGS="-g -fsanitize=address,undefined -fno-omit-frame-pointer" > /dev/null && ninja -C _bs archive_static 2>&1 | tail -3', cwd=wt)
+def demo(src, extra='', b='_b'):
+    rc, out = sh(f'gcc -O1 -g {extra} -I libarchive -I {b} -I libarchive/test {src} {b}/libarchive/libarchive.a {LIBS} -o _b/demo 2>&1 | tail -5', cwd=wt)
+    if not os.path.exists(os.path.join(wt, '_b/demo')) and '__LIBARCHIVE_BUILD' not in extra:
+        return demo(src, extra + ' -D__LIBARCHIVE_BUILD -DHAVE_CONFIG_H', b)
     if not os.path.exists(os.path.join(wt, '_b/demo')): return None, out
     rc, out = sh('./_b/demo', cwd=wt, timeout=300)
     os.unlink(os.path.join(wt, '_b/demo'))
@@ -38,6 +42,13 @@ for n in nums:
         print(n, 'PATCH DOES NOT APPLY', out); continue
     t, _ = build_and_test('mut')
     d1 = demo(f'{src}/demo.c')
+    how_demo = 'plain build'
+    if d0[0] == 0 and d1[0] == 0 and t == base_tests:
+        # a memory error that a plain build does not show: the same demo against sanitized builds
+        build_san(); d1 = demo(f'{src}/demo.c', '-fsanitize=address,undefined', '_bs')
+        sh('git checkout -- .', cwd=wt)
+        build_san(); d0 = demo(f'{src}/demo.c', '-fsanitize=address,undefined', '_bs')
+        how_demo = 'ASan/UBSan build'
     sh('git checkout -- .', cwd=wt)
     ok = d0[0] == 0 and d1[0] not in (0, None) and t == base_tests
     res.update(demo_unchanged_rc=d0[0], demo_patched_rc=d1[0], tests_with_patch=t, baseline_tests=base_tests, confirmed=ok,
@@ -49,7 +60,7 @@ for n in nums:
         for f in ('patch.diff', 'demo.c', 'notes.md'):
             if os.path.exists(f'{src}/{f}'): shutil.copy(f'{src}/{f}', dst)
         meta = {'property': prop, 'breaks': open(f'{src}/notes.md').read()[:1500] if os.path.exists(f'{src}/notes.md') else '',
-                'confirmed': {'demo on unchanged tree': 'exit 0', 'demo with patch': f'exit {d1[0]}',
+                'confirmed': {'demo on unchanged tree': 'exit 0', 'demo with patch': f'exit {d1[0]}', 'demo build': how_demo,
                               'ctest with patch': t, 'ctest baseline': base_tests,
                               'how': 'tools/dev/confirm_seed.py in a scratch worktree of /repo HEAD (Release build, ctest -j16)'},
                 'detected_by': 'see DESIGN.md section 10'}
